@@ -15,33 +15,7 @@ import vlib
 MOD, MC, GEN, JUDGE, TRACE = "ReplicationSearch", "MC_ReplicationSearch", "ReplicationSearchGen", \
     "ReplicationSearchJudge", "ReplicationSearchTrace"
 KINDS = ["minute", "hour", "day", "changesets"]
-CASE_FIELDS = ("kind", "skew", "style", "prefix", "present", "first", "cur")
-
-# Known findings of the pinned tree (DESIGN.md section 4, #10 #11 #11b).  /verif/known_findings.json is the
-# authority: an entry there (status "known" or "fixed") always wins.  These defaults only apply to a KF
-# predicate the file does not mention (the file is maintained by the coordinator, see notes/C19.md).
-DEFAULT_KNOWN = [
-    {"property": "C19", "kf": "KF_ProbeLoop", "status": "known", "commit": "",
-     "what": "search.go:276,290 probe loops test splitID instead of the moving sID: a run of missing files below a "
-             "split makes findInRange re-fetch lower for ever (fixes/C19-probe-loops.diff)"},
-    {"property": "C19", "kf": "KF_Boundary", "status": "known", "commit": "",
-     "what": "search.go:212,302 boundary results: adjacent bounds return lower although t is after it; lower is "
-             "never returned when t is at or before it; nothing between the bounds returns lower instead of upper "
-             "(fixes/C19-boundary-results.diff)"},
-    {"property": "C19", "kf": "KF_FindBoundGap", "status": "known", "commit": "",
-     "what": "search.go:219-259 findBound bisects upwards only: with state 1 missing, a wanted state below a gap the "
-             "bisection never probes is skipped ({2,5}, t <= state 2 => 5); needs a redesign of findBound"},
-]
-
-
-def _known(ctx):
-    if os.environ.get("VERIF_C19_NO_DEFAULT_KF"):
-        return
-    have = {k["kf"] for k in ctx.known}
-    for k in DEFAULT_KNOWN:
-        if k["kf"] not in have:
-            ctx.known.append(dict(k))
-
+CASE_FIELDS = ("kind", "skew", "style", "prefix", "unit", "pauses", "pauselen", "present", "first", "cur")
 
 # --------------------------------------------------------------------------
 class Cases:
@@ -190,7 +164,6 @@ def validate_traces(ctx, recs, per_shard=800):
 
 # --------------------------------------------------------------------------
 def run(ctx):
-    _known(ctx)
     tier = "quick" if ctx.quick() else "thorough"
     os.makedirs(os.path.join(ctx.scratch), exist_ok=True)
     shutil.copytree(vlib.SPEC, os.path.join(ctx.scratch, "spec"), ignore=shutil.ignore_patterns("states", ".tlacache"))
@@ -256,7 +229,6 @@ def run(ctx):
 
 
 def replay(ctx, rp):
-    _known(ctx)
     recs = execute_dirs(ctx, [rp["case"]])
     bad = judge(ctx, recs)
     if not bad:
